@@ -93,12 +93,13 @@ Prep ==
      IN /\ R' = d
         /\ cands' = IF Eager THEN d.orders ELSE C!PermsOf(C!Trans)
         /\ wait' = [t \in C!Trans |-> 0]
-        /\ IF raised # (d.verdict # "ok")
+        /\ IF raised # (d.verdict # "ok") /\ ~(raised /\ C!LateBefore)
            THEN /\ status' = "reject"
                 /\ PrintT("REJECT " \o ToJson([tid |-> tid, line |-> 0, clauses |-> {"RaisedIffIllFormed"},
                                                verdict |-> d.verdict, raised |-> raised]))
            ELSE IF raised
-           THEN status' = "accept" /\ PrintT("ACCEPT " \o ToJson([tid |-> tid, verdict |-> d.verdict, lines |-> 0]))
+           THEN status' = "accept" /\ PrintT("ACCEPT " \o ToJson([tid |-> tid, lines |-> 0,
+                      verdict |-> IF d.verdict = "ok" THEN "outOfScope:lateBefore" ELSE d.verdict]))
            ELSE status' = "go"
   /\ UNCHANGED <<tid, l, lastg, X>>
 \* phase 1 of a cycle: compute the context once (stored in a variable so that TLC evaluates it once)
